@@ -203,12 +203,13 @@ func init() {
 			"(K-zero-flow) no account built from the empty default is stored unless the search reported success;",
 			"(A-order, A-sort) the choice is deterministic: candidates and tokens are visited in sorted order, and training over concurrently parsed files is order-free;",
 			"(D-atomic, C-filewrite) --inplace writes through the atomic writer only after a successful parse and render.",
+			"(C-filewrite, D-atomic) with --inplace the result is written only through atomic.WriteFile, after the target was parsed and rendered successfully (no truncating or in-place open of the journal);",
 		},
 		NotDecided: []string{
 			"that the chosen account maximises the Bayes score; that the formatter preserves everything else (C08);",
 			"that the stored account occurs in the training journal (it is a key of the training counts by construction of the candidate loop; not machine-checked).",
 		},
-		Rules: []Rule{RuleCInfer, RuleCInferFresh, RuleKZeroFlow, RuleAOrder},
+		Rules: []Rule{RuleCInfer, RuleCInferFresh, RuleKZeroFlow, RuleAOrder, RuleCFileWrite, RuleDAtomic},
 	})
 	claim(&Property{
 		ID: "C20",
@@ -220,11 +221,12 @@ func init() {
 			"(A-order, A-stage) float sums and row order do not depend on map iteration or arrival order;",
 			"(K-weights-sum) every update of a weights node adds to the entry it replaces (leaves and groups), the node's map is replaced only by lazy initialisation, and Report.Add receives V1[com] divided by the sum of V1 over the same commodities;",
 			"(K-transfer-fresh) the per-transaction flow maps handed to the additive transfer (performance.split) start empty at every invocation of the callback, so no flow is transferred twice.",
+			"(K-day-reset) a stage of the performance calculator that accumulates a figure within a day and reads it at the end of the day assigns it in DayStart on every path;",
 		},
 		NotDecided: []string{
 			"agreement of the weights with `balance -v` (arithmetic over runtime values), the return formula itself, the classification of a posting as external or internal flow.",
 		},
-		Rules: []Rule{RuleDDaysBeforeBuild, RuleG1, RuleB1, RuleKPartitionWhole, RuleAOrder, RuleKWeightsSum, RuleKTransferFresh},
+		Rules: []Rule{RuleDDaysBeforeBuild, RuleG1, RuleB1, RuleKPartitionWhole, RuleAOrder, RuleKWeightsSum, RuleKTransferFresh, RuleKDayReset},
 	})
 }
 
@@ -303,12 +305,13 @@ func init() {
 			"(C-postings) the postings of every emitted transaction come from the pair builder;",
 			"(F-keywords, F-multiline, F-model-only, K-print-pairs) the shared printer writes keywords the parser reads back, terminates multi-line directives with an empty line, prints model content only, and prints exactly one booking line per posting pair whatever the amounts;",
 			"(A-order) no map iteration order reaches the output of an importer.",
+			"(K-builders-all) the pair builders build the postings of every booking they are given (no booking is skipped, so no transaction is left without postings);",
 		},
 		NotDecided: []string{
 			"row fidelity: one transaction per row, on the row's date, with the row's signed amount in the row's currency (which column is read, sign conventions, thousands separators): values of runtime strings, no structural reading;",
 			"zero-amount rows and other value-dependent printing paths.",
 		},
-		Rules: []Rule{RuleCStdout, RuleHQuotes, RuleKRegistryOrigin, RuleCPostings, RuleFKeywords, RuleFMultiline, RuleFModelOnly, RuleKPrintPairs, RuleAOrder},
+		Rules: []Rule{RuleCStdout, RuleHQuotes, RuleKRegistryOrigin, RuleCPostings, RuleKBuildersAll, RuleFKeywords, RuleFMultiline, RuleFModelOnly, RuleKPrintPairs, RuleAOrder},
 	})
 }
 
@@ -324,12 +327,14 @@ func init() {
 			"(K-errors) no call reachable from these commands drops the error of a module function (355 used, 6 reviewed drops);",
 			"(D-out-after) standard output is first used after the journal was loaded and processed successfully, and no processor callback of balance/print/transcode/check/infer writes to it;",
 			"(E-loops) the parser terminates on every input (shared with C07).",
+			"(K-chan) a failing stage cannot leave its neighbours blocked on a channel: pools with unbuffered links cancel on error or their stages drain their input, so the command terminates with the error;",
+			"(D-write-last) once the directive writers (journal.Print, the beancount transcoder) have started to write, the only errors they return come from writing: no validation can fail after the first byte of the report;",
 		},
 		NotDecided: []string{
 			"implicit panics in general (index and slice bounds that do not come from a flag or from the input text, nil maps, type assertions);",
 			"memory bounds other than the include cycle; hangs other than the channel protocol of C19.",
 		},
-		Rules: []Rule{RuleCPanic, RuleDDiv, RuleDNilFlag, RuleDFlagInt, RuleDMakeCap, RuleDRecursion, RuleKNestedLimit, RuleKErrors, RuleDOutAfter, RuleELoops},
+		Rules: []Rule{RuleCPanic, RuleDDiv, RuleDNilFlag, RuleDFlagInt, RuleDMakeCap, RuleDRecursion, RuleKNestedLimit, RuleKChan, RuleKErrors, RuleDOutAfter, RuleDWriteLast, RuleELoops},
 	})
 }
 
@@ -357,11 +362,12 @@ func init() {
 			"(K-chan) every channel made by cpr.Produce/FanIn is closed by an unconditional defer in its worker; the only blocking channel operations reachable from a command are the selects of cpr.Push/Pop (with ctx.Done()) and receives dominated by a successful Wait; cpr.Seq's pool cancels on error, and in pools that do not, no consumer can fail before draining its input;",
 			"(K-fifo, D-push-once, F-directive-types, K-nested-limit) one goroutine per stage, each item forwarded exactly once, no directive type is dropped between the stages, no concurrency limit on the group with nested submission.",
 			"(I-recheck) a fresh object is published into a registry map only after a membership test under the same exclusive acquisition (no check-then-act across the read lock);",
+			"(K-postings-fresh) postings stored into a transaction inside a loop are built inside that loop: no two transactions (days) share Posting objects;",
 		},
 		NotDecided: []string{
 			"race freedom in general: no pointer analysis is available (x/tools v0.29 has no go/pointer; VTA resolves calls, not aliases), so races through objects other than the registries, interned objects and stage arguments are not excluded;",
 			"schedule-dependent liveness beyond the protocol rules.",
 		},
-		Rules: []Rule{RuleILocks, RuleIRecheck, RuleB1, RuleB2, RuleG3, RuleKChan, RuleKFifo, RuleDPushOnce, RuleFDirectiveTypes, RuleKNestedLimit},
+		Rules: []Rule{RuleILocks, RuleIRecheck, RuleB1, RuleB2, RuleKPostingsFresh, RuleG3, RuleKChan, RuleKFifo, RuleDPushOnce, RuleFDirectiveTypes, RuleKNestedLimit},
 	})
 }
